@@ -216,6 +216,14 @@ type World struct {
 	livelock   bool
 	stopElapsed int64
 	trace []string
+	txOrder     []string
+	arrivals    map[string][]arrival
+	UMempool    map[string]map[string]bool
+	lastUnsync  int64
+	everReorged bool
+	restarts    []int64
+	crashes     []int64
+	lastReqs    map[string]int
 	Abandoned []string // the best chain before the last reorg
 	lastDump string
 	steps      int64
@@ -260,6 +268,8 @@ func NewWorld(cfg WorldCfg) *World {
 	w := &World{cfg: cfg, Tree: newTree(), U: map[string]*peerConn{}, Mempool: map[string]*wire.MsgTx{},
 		TxNames: map[bitcoin.Hash32]string{}, Txs: map[string]*wire.MsgTx{}}
 	w.fetcher = &fetcher{w}
+	w.arrivals = map[string][]arrival{}
+	w.UMempool = map[string]map[string]bool{}
 	w.S = vrt.NewSched()
 	vrt.Install(w.S)
 	vnet.Reset()
@@ -349,8 +359,11 @@ func (w *World) settle() {
 			}
 		}
 		if !w.pump() {
-			return
+			break
 		}
+	}
+	if w.Node != nil && !w.Node.IsReady(core.Ctx()) {
+		w.lastUnsync = w.S.Now
 	}
 }
 
@@ -600,6 +613,9 @@ func (w *World) Extend(k int, txNames []string) {
 		var names []string
 		if i == 0 {
 			for _, n := range txNames {
+				if !w.mineable(n, names) {
+					continue // a valid chain confirms a tx once and never a double spend
+				}
 				if tx, ok := w.Txs[n]; ok {
 					txs = append(txs, tx)
 					names = append(names, n)
@@ -871,6 +887,24 @@ func (w *World) Back(k int) bool {
 	for len(w.Best) < target {
 		b := w.Tree.mine(w.Best[len(w.Best)-1], nil, nil)
 		w.Best = append(w.Best, b.name)
+	}
+	return true
+}
+
+// mineable: not yet confirmed on the best chain and not conflicting with a confirmed tx or with a
+// tx already chosen for this block.
+func (w *World) mineable(n string, chosen []string) bool {
+	for _, c := range chosen {
+		if c == n || w.conflicts(c, n) {
+			return false
+		}
+	}
+	for _, bn := range w.Best {
+		for _, t := range w.Tree.blocks[bn].txs {
+			if t == n || w.conflicts(t, n) {
+				return false
+			}
+		}
 	}
 	return true
 }
